@@ -872,6 +872,10 @@ func (fc *FC) structOf(ptr ssa.Value) *RF {
 		st := fa.X.Type().Underlying().(*types.Pointer).Elem()
 		return fc.X.fieldOf(fc.structOf(fa.X), st, fa.Field)
 	}
+	if ia, ok := ptr.(*ssa.IndexAddr); ok {
+		// address of a slice/array element: the element
+		return fc.X.S.MakeFn("idx", fc.Val(ia.X), fc.Val(ia.Index))
+	}
 	v := fc.Val(ptr)
 	if at := v.SingleAtom(); at != nil && at.Name == "ref" {
 		return at.Args[0]
